@@ -400,6 +400,8 @@ func VerifHarness_C12_UnknownName() {
 		verifAssume(!verifSpace(tail[i]) && tail[i] != 0)
 	}
 	name := prefix + tail
+	// the value is one every boolean / string setting would accept, or none: only the name can be at fault
+	value := []string{" yes", "", " no"}[nondetChoice("value", 3)]
 	for _, k := range verifCommonKeys {
 		verifAssume(name != k)
 	}
@@ -410,14 +412,14 @@ func VerifHarness_C12_UnknownName() {
 			verifAssume(name != k)
 		}
 		verifAssume(name != "converter" && name != "variables")
-		err := parseConverterLines(ctx, c, "conv", RawLines{Location: "conv.go:1", Lines: []string{name + " x"}})
+		err := parseConverterLines(ctx, c, "conv", RawLines{Location: "conv.go:1", Lines: []string{name + value}})
 		verifReach("converter-level")
 		verifAssert("unknown-name-on-converter-is-error", err != nil)
 	} else {
 		for _, k := range verifMethodOnly {
 			verifAssume(name != k)
 		}
-		_, err := parseMethod(ctx, c, verifObj(), RawLines{Location: "conv.go:3", Lines: []string{name + " x"}})
+		_, err := parseMethod(ctx, c, verifObj(), RawLines{Location: "conv.go:3", Lines: []string{name + value}})
 		verifReach("method-level")
 		verifAssert("unknown-name-on-method-is-error", err != nil)
 	}
